@@ -85,7 +85,7 @@ def _list_plot_item_labels(cp):
   return outlist  
 
 def _item_value(cp, key):
-  section, section_key = key.split(":",1)
+  section, section_key = key.rsplit(":",1)
   v = cp.raw_config_parser[section][section_key]
   return v 
 
